@@ -287,11 +287,20 @@ func (w *elWorker) build() {
 		}
 	}
 	if capID != "" {
-		for _, vi := range []int{3, 1} {
-			vi := vi
-			w.tx(fmt.Sprintf("update(c%s,prio=[v%d])", capID, vi), func(x *elNode) sdk.Msg {
+		// single entries, a two-element list, and a list of the same length naming one validator twice
+		// (lists are validated entry by entry, duplicates are legal)
+		for _, vis := range [][]int{{3}, {1}, {3, 1}, {1, 1}} {
+			vis := vis
+			label := ""
+			for i, vi := range vis {
+				if i > 0 {
+					label += ","
+				}
+				label += fmt.Sprintf("v%d", vi)
+			}
+			w.tx(fmt.Sprintf("update(c%s,prio=[%s])", capID, label), func(x *elNode) sdk.Msg {
 				ps, err := p.K.GetConsumerPowerShapingParameters(x.S.Ctx, capID)
-				want := consAddrs(p, vi)
+				want := consAddrs(p, vis...)
 				if err != nil || fmt.Sprint(ps.Prioritylist) == fmt.Sprint(want) {
 					return nil
 				}
